@@ -9,14 +9,18 @@ from .core import Machinery
 
 
 class FakeReactor(object):
+  """what carbon.writer needs of the reactor; records what WriterService.startService() registers so that the
+  harness threads run exactly that: the functions handed to callInThread and the shutdown triggers by phase"""
   def __init__(self):
     self.running = True
+    self.triggers = []      # (phase, event, callable)
+    self.in_thread = []     # callables
 
-  def addSystemEventTrigger(self, *a, **k):
-    pass
+  def addSystemEventTrigger(self, phase, event, f, *a, **k):
+    self.triggers.append((phase, event, f))
 
-  def callInThread(self, *a, **k):
-    pass
+  def callInThread(self, f, *a, **k):
+    self.in_thread.append(f)
 
 
 class SchedTime(object):
@@ -128,6 +132,18 @@ class WriterRun(object):
     wm.util.sleep = st.sleep
     self.reactor = FakeReactor()
     wm.writer.reactor = self.reactor
+    # the real service wiring (reload tasks are not started: their LoopingCalls get a private clock)
+    from twisted.internet import task as _task
+    import signal as _signal
+    svc = wm.writer.WriterService()
+    svc.storage_reload_task.clock = _task.Clock()
+    svc.aggregation_reload_task.clock = _task.Clock()
+    old = _signal.getsignal(_signal.SIGHUP)
+    try:
+      svc.startService()
+    finally:
+      _signal.signal(_signal.SIGHUP, old)
+    self.service = svc
     wm.settings['CACHE_WRITE_STRATEGY'] = self.cfg['strategy']
     wm.settings['MAX_CACHE_SIZE'] = float('inf')
     wm.settings['CACHE_SIZE_HARD_MAX'] = float('inf')
@@ -204,6 +220,10 @@ class WriterRun(object):
   def teardown(self):
     import time
     wm = self.wm
+    try:
+      self.service.stopService()
+    except Exception:
+      pass
     self.errlog.remove()
     wm.cache._Cache = None
     wm.writer.time = time
@@ -227,16 +247,31 @@ class WriterRun(object):
       self.sched.point('op')
 
   def w_body(self):
-    self.wm.writer.writeForever()
+    # the writer thread runs what WriterService.startService() handed to reactor.callInThread first
+    (self.reactor.in_thread[0] if self.reactor.in_thread else self.wm.writer.writeForever)()
     self.ev.append(dict(k='exit'))
 
   def s_body(self):
+    # reactor.stop(): the 'before shutdown' triggers the service registered, then running := False
     self.sched.point('op')
     self.ev.append(dict(k='stopBefore'))
-    self.wm.writer.shutdownModifyUpdateSpeed()
+    for phase, event, f in self.reactor.triggers:
+      if phase == 'before' and event == 'shutdown':
+        f()
     self.sched.point('op')
     self.ev.append(dict(k='stopDuring'))
     self.reactor.running = False
+    for phase, event, f in self.reactor.triggers:
+      if phase == 'during' and event == 'shutdown':
+        f()
+    # 'during shutdown' Twisted also stops the thread pool, which joins the writer thread; only then 'after' triggers run
+    if any(phase == 'after' and event == 'shutdown' for phase, event, f in self.reactor.triggers):
+      w = [t for t in self.sched.threads if t.name == 'W'][0]
+      while not w.done:
+        self.sched.sleep_point()
+      for phase, event, f in self.reactor.triggers:
+        if phase == 'after' and event == 'shutdown':
+          f()
 
   def execute(self, chooser):
     self.build()
